@@ -25,7 +25,7 @@ DEADLINE = 600
 
 def cases(tier, seed):
     rng = random.Random(f"C10/{seed}")
-    nmax, count, amb, msize = (7, 7000, 1500, 80) if tier == "quick" else (9, 40000, 8000, 400)
+    nmax, count, amb, msize = (7, 7000, 1500, 80) if tier == "quick" else (9, 100000, 16000, 400)
     cl = [("rand", 4), ("rand-wide", 3), ("gadget", 3), ("inputs", 3), ("dense-neg", 2)]
     nets = gen.corpus() + [gen.exh2(i) for i in range(256)] + [gen.draw(rng, cl, nmax) for _ in range(count)]
     out = [{"net": n, "cls": n["cls"], "mode": "small", "rs": rng.randrange(1 << 30)} for n in nets]
